@@ -214,6 +214,13 @@ func gen(r *hx.Rng, stores []string) Case {
 	c.SyncAdd = r.Chance(1, 3)
 	c.SkipVerify = r.Chance(1, 5)
 	c.Ops = genOps(r, &c)
+	if c.LM == "prefetch" && r.Chance(1, 10) {
+		// landmark offset <= async threshold < configured size: the threshold must be compared with the range that is
+		// really prefetched (the landmark's), so a wait during the parked download is NOT released early
+		c.AsyncSize = int64(r.Range(350000, 450000))
+		c.PrefetchSize = int64(r.Range(500000, 2000000))
+		c.Ops = []Op{{Op: "pf", N: r.Range(1, 2), Fault: "stall"}, {Op: "wait", N: r.Range(1, 3)}, {Op: "rel"}, {Op: "wait"}, {Op: "readprio"}}
+	}
 	return c
 }
 
@@ -238,6 +245,9 @@ func genOps(r *hx.Rng, c *Case) []Op {
 	}
 	if r.Chance(1, 10) {
 		ops = append(ops, Op{Op: "readprio", Buf: buf()})
+	}
+	if r.Chance(1, 8) {
+		ops = append(ops, Op{Op: "readpart"}) // files partly cached before prefetch / background fetch walk them
 	}
 	if r.Chance(1, 10) {
 		ops = append(ops, Op{Op: "off"})
@@ -298,6 +308,9 @@ func genOps(r *hx.Rng, c *Case) []Op {
 			held = true
 		} else {
 			held = false
+		}
+		if !held && r.Chance(1, 4) {
+			ops = append(ops, Op{Op: "readpart"})
 		}
 		bg := Op{Op: "bg", N: many(), Intf: r.Chance(1, 3), Buf: buf()}
 		if r.Chance(1, 5) {
@@ -404,6 +417,8 @@ func coqCase(c *Case, obs *Obs) string {
 			ops[i] = "SRel"
 		case "wait":
 			ops[i] = fmt.Sprintf("SWait %d", o.N)
+		case "readpart":
+			ops[i] = "SReadPart"
 		case "readprio":
 			ops[i] = "SReadPrio"
 		case "readall":
@@ -603,6 +618,20 @@ func corpus() []Case {
 	c = base()
 	c.AsyncSize = 1000
 	c.Ops = []Op{{Op: "pf", Fault: "stall"}, {Op: "wait"}, {Op: "rel"}, {Op: "readprio"}}
+	out = append(out, c)
+	// ... but not when only the CONFIGURED size exceeds the threshold and the landmark's range does not
+	c = base()
+	c.AsyncSize, c.PrefetchSize = 400000, 1<<20
+	c.Ops = []Op{{Op: "pf", Fault: "stall"}, {Op: "wait"}, {Op: "rel"}, {Op: "wait"}, {Op: "readprio"}}
+	out = append(out, c)
+	// files partly cached by on-demand reads before the background fetch walks them: it must complete them
+	c = base()
+	c.ChunkSize = 4096
+	c.Ops = []Op{{Op: "readpart"}, {Op: "bg"}, {Op: "off"}, {Op: "readall"}}
+	out = append(out, c)
+	c = base()
+	c.ChunkSize, c.FSCache, c.LRU, c.SyncAdd = 4096, "dir", 2, true
+	c.Ops = []Op{{Op: "readpart"}, {Op: "pf"}, {Op: "off"}, {Op: "readprio"}, {Op: "on"}, {Op: "bg", N: 2}, {Op: "off"}, {Op: "readall", Buf: 777}}
 	out = append(out, c)
 	// registry failure during prefetch: waiting returns, later calls do not run the body again
 	c = base()
